@@ -122,4 +122,80 @@ CLAIMS = {
         "note": COMMON_NOTE + "Scheduling latency is outside the model (bounds proved for zero-latency runs; runs with injected latency are still trace-checked).",
         "technique": "Lean 4 proof (counting invariant + arithmetic invariant of the timed loop) + trace acceptance under a virtual clock",
     },
+    "C01": {
+        "text": "Theorems seq_order (socket ++ buffer = concatenation in issue order of what each writer submitted: no interleaving, no reordering, for every interleaving of the "
+                "threads that write/flush/drop, any response sizes, any buffering policy), no_overtaking, dropped_prefix_closed, sock_is_prefix, flush_delivers, "
+                "first_alive_has_turn — inductive invariants of the SequentialWriter LTS over all label sequences. Tied to the code by running the whole server (generated copy) "
+                "under the deterministic scheduler with every request answered on its own handler thread after random virtual delays, or all held by one thread; the client "
+                "stream must be byte-identical to the sequential model's and decode in request order.",
+        "design_ref": "6 (C01), 5 (M3)",
+        "note": COMMON_NOTE + "One writer per parsed head in parse order is the connection-loop model (runLoop emits in stream order; C12.trace_extends_state). Holds with the writer-drop repair.",
+        "technique": "Lean 4 proof (inductive invariant of an LTS) + whole-server runs under a deterministic scheduler compared with the sequential model",
+    },
+    "C06": {
+        "text": "Theorems one_final_response (every complete handling — any number of as_reader calls then exactly one consuming operation — yields exactly one final response "
+                "event), dropped_gets_500, nothing_after_consumption, interim_only_first, finish_status_single, drop_releases_successor. Tied to the code by handler programs "
+                "{read none/part/all} x {respond, raw writer, upgrade, drop, panic} per pipelined request, sequentially over real sockets and on concurrent handler threads under "
+                "the deterministic scheduler; the client stream must contain exactly the expected messages (500 exactly at dropped positions).",
+        "design_ref": "6 (C06), 5 (M6, M3)",
+        "note": COMMON_NOTE + "Rust ownership (consuming self) is the grammar of legal programs and is trusted.",
+        "technique": "Lean 4 proof (typestate machine + writer-chain LTS) + differential correspondence incl. concurrent handlers",
+    },
+    "C08": {
+        "text": "Theorems waiting_count_exact, queued_tasks_are_claimed (queued tasks <= workers already woken), every_queued_task_can_start (a woken worker's next step starts a "
+                "queued task, no task end needed), dispatch_never_blocks, task_conservation, task_started_at_most_once — invariants of the TaskPool LTS for every burst pattern "
+                "and schedule. Tied to the code by trace acceptance of the real task_pool.rs (generated copy) under the deterministic scheduler: dispatch branch, woken worker, "
+                "which worker starts which task must be what the LTS computes; predicate: every dispatched task started while no task ended.",
+        "design_ref": "6 (C08), 5 (M5)",
+        "note": COMMON_NOTE + "Holds with the dispatch repair. Thread creation and OS scheduling are outside the model.",
+        "technique": "Lean 4 proof (inductive invariants of an LTS) + trace acceptance of the real module under a deterministic scheduler",
+    },
+    "C11": {
+        "text": "Theorems released_at_parse_iff, small_body_limit (=1024, extracted), buffered_is_small, ahead_step_small (a request with no body or a complete buffered body lets the "
+                "read-ahead continue with the bytes after it, nothing answered), ahead_blocks_only_on_streamed_body, ahead_heads_prefix_of_run. Tied to the code by pipelines of 2..8 "
+                "requests whose application collects all requests before answering any, under the deterministic scheduler (a failed read-ahead is a detected deadlock); the count of "
+                "requests obtained is compared with the read-ahead model, incl. a streamed first body read to its end.",
+        "design_ref": "6 (C11)",
+        "note": COMMON_NOTE + "The reader hand-off chain is the same turn-chain LTS as the writers (Lts/Seq.lean).",
+        "technique": "Lean 4 proof (read-ahead loop model) + deadlock detection under a deterministic scheduler",
+    },
+    "C13": {
+        "text": "Theorems over an operational model in which every socket read returns an oracle-chosen number of bytes: read_is_a_socket_read, every_size_is_possible, "
+                "line_reader_oracle, head_reader_oracle, small_body_oracle, body_reader_oracle_partial/_nonchunked, runO_eq_run_masked (for ALL streams, oracles and scripts the "
+                "trace equals the flat semantics except for the bytes obtained from a chunked body before a read error), runO_eq_run_partial (exact equality when no such entry), "
+                "segmentation_independent_masked/_partial. The full statement is FALSE of the faithful model and of the code (kernel-checked counterexamples "
+                "chunk_crlf_counterexample, runO_eq_run_is_false): a known finding, reproduced by the check on the real code. Tied to the code by delivering each corpus "
+                "conversation unsplit, at every split point, byte by byte and in random splits over an in-memory socket that returns one segment per read.",
+        "design_ref": "6 (C13), 7",
+        "note": COMMON_NOTE + "BufReader(1024) and TCP are instances of the read oracle (trusted: a read returns a non-empty prefix of the unread stream, at most the requested size). "
+                "Known finding (chunked_transfer Decoder drops the bytes of the read that finds a chunk's CRLF missing) is listed in known_findings.json.",
+        "technique": "Lean 4 proof (refinement of an oracle-driven operational model to the flat semantics) + exhaustive split-point correspondence on an in-memory network",
+    },
+    "C14": {
+        "text": "Theorems declared_length_allocation_bounded (the only buffer sized by a declared length is <= 1024 bytes), accepted_content_length_fits, accepted_chunk_size_fits, "
+                "discard_read_size_bounded, limited_read_request_bounded, te_comparison_consistent (strict weak order: the sort cannot panic), nan_is_rejected, "
+                "run_always_ends_regularly (the model is total for every byte stream, oracle and script). Partial: completeness of the panic inventory, the allocator and process "
+                "exit are runtime facts — covered by running adversarial inputs in child processes with a panic hook and a counting allocator.",
+        "design_ref": "6 (C14), 9",
+        "note": COMMON_NOTE + "Holds with the EqualReader and NaN repairs; the harness bound includes its own observation buffers.",
+        "technique": "Lean 4 proof (bounds on the modelled logic) + child-process fault observation (panic hook, counting allocator, exit status)",
+    },
+    "C15": {
+        "text": "Theorems incomplete_head_not_delivered, no_terminator_no_head, incomplete_small_body_not_delivered, head_in_prefix_is_head, body_read_never_blocks_when_closed, "
+                "read_up_to_never_blocks_when_closed, drain_terminates_when_closed, handle_never_blocks_when_closed, respond_swallows_client_errors. Tied to the code by cutting "
+                "each conversation at EVERY prefix length followed by half-close / close / reset, and by failing the server's writes after j bytes with each client-closing error "
+                "kind, on the in-memory network; afterwards a fresh connection must be served. Partial: OS error kinds, RST semantics, accept-loop liveness are observed.",
+        "design_ref": "6 (C15), 9",
+        "note": COMMON_NOTE + "A client that stays connected but never reads is back-pressure by design and not a vanished client.",
+        "technique": "Lean 4 proof (prefix stability and non-blocking lemmas over the wire model) + exhaustive cut-point / injected-fault correspondence",
+    },
+    "C20": {
+        "text": "Theorems min_threads_value (=4, extracted), idle_period_value (=5000 ms), active_count_exact, untimed_waiters_bounded, idle_pool_at_baseline, timed_out_worker_exits, "
+                "retire_no_task_lost, drop_wakes_everybody (pool LTS), accept_loop_stops (at most one more accept after the flag), handed_out_still_answerable, no_accept_after_exit "
+                "(accept-loop LTS). Tied to the code by trace acceptance of the real task_pool.rs under virtual time (bursts, idle period, pool drop) and by pristine server-drop "
+                "observations. Partial: listener refusal, UNIX socket removal and real thread counts are OS behaviour, observed only.",
+        "design_ref": "6 (C20), 9",
+        "note": COMMON_NOTE,
+        "technique": "Lean 4 proof (pool and accept-loop LTS invariants) + trace acceptance under a virtual clock + OS-level observation",
+    },
 }
